@@ -571,6 +571,7 @@ looked up. -/
 def Acc.isPlain : Acc → Bool
   | .key _ => false
   | .var _ _ => false
+  | .h _ => false
   | _ => true
 
 /-- the path segment of a plain accessor -/
@@ -580,6 +581,7 @@ def Acc.seg : Acc → Nat
   | .kfld i => i
   | .key k => k
   | .var _ i => i
+  | .h i => i
 
 /-- the trigger path (and value position) of a chain of plain accessors -/
 def chainPath (c : Chain) : Path := c.map Acc.seg
@@ -618,6 +620,7 @@ theorem stepAcc_plain (st : St) (w : Walk) (a : Acc) (h : a.isPlain = true) :
   | kfld i => rfl
   | key k => cases h
   | var v i => cases h
+  | h i => cases h
 
 /-- the walk along a chain of plain accessors, started from any walk state `w` that has not passed a key step -/
 theorem foldl_plain (st : St) (c : Chain) : ∀ (w : Walk) (vp : Path),
@@ -711,6 +714,20 @@ theorem walk_plainChain (st : St) (c : Chain) (hpl : ∀ a ∈ c, a.isPlain = tr
   · cases c with
     | nil => rfl
     | cons a r => exact (a6 (by simp)).2
+
+/-- a chain of plain accessors does not start at a handle -/
+theorem walkH_plain (st : St) (c : Chain) (hpl : ∀ a ∈ c, a.isPlain = true) : walkH st c = walk st c := by
+  cases c with
+  | nil => rfl
+  | cons a r =>
+    have ha := hpl a (by simp)
+    cases a with
+    | h i => cases ha
+    | fld i => rfl
+    | idx i => rfl
+    | kfld i => rfl
+    | key k => rfl
+    | var v i => rfl
 
 theorem walk_fldChain_path (st : St) (p : Path) :
     (walk st (fldChain p)).2.tpath = p ∧ (walk st (fldChain p)).2.trackList = trackSet p ∧
@@ -1280,7 +1297,7 @@ theorem runEff_plain (st : St) (e : Nat) (x : Eff)
       { st with subs := (trackSet (chainPath x.chain)).foldl (fun m t => subscribe m e t) (unsubscribeAll st.subs e),
                 log := st.log ++ [(e, seenAt st.val (chainPath x.chain))] } := by
   unfold runEff
-  simp only [he, runKind, hi, trackAndRead]
+  simp only [he, runKind, hi, trackAndRead, walkH_plain _ x.chain hpl]
   have w1 := walk_plainChain { st with subs := unsubscribeAll st.subs e } x.chain hpl
   obtain ⟨a1, _, _, _, _, _, a7, _⟩ := w1
   simp only [a1, a7]
@@ -1463,6 +1480,7 @@ theorem writeVia_fldIdx (st : St) (c : Chain) (hc : ∀ a ∈ c, a.isFldIdx = tr
       (notifyAll { st with val := st.val.set (chainPath c) (f old) } (notifySet (chainPath c)), .done) := by
   obtain ⟨a1, a2, a3, a4, a5, a6, a7, a8, a9⟩ := walk_plainChain st c (isPlain_of_isFldIdx c hc)
   unfold writeVia
+  rw [walkH_plain st c (isPlain_of_isFldIdx c hc)]
   simp only [a1, a6, hg, Option.isNone_some, Bool.false_eq_true, if_false, a3, a4]
   rw [a9]
   rcases List.eq_nil_or_concat c with rfl | ⟨l, b, rfl⟩
@@ -1477,6 +1495,7 @@ theorem writeVia_fldIdx (st : St) (c : Chain) (hc : ∀ a ∈ c, a.isFldIdx = tr
     | kfld i => cases hb
     | key k => cases hb
     | var v i => cases hb
+    | h i => cases hb
 
 theorem any_hit_iff (p q : Path) (m : List (Trig × List Nat)) (e : Nat)
     (hsub : ∀ t, (subsOf m t).contains e = true ↔ t ∈ trackSet q) :
@@ -1567,7 +1586,7 @@ theorem isPlain_take (c : Chain) (n : Nat) (h : ∀ a ∈ c, a.isPlain = true) :
 theorem trackAndRead_subs (st : St) (e : Nat) (c : Chain) (hpl : ∀ a ∈ c, a.isPlain = true) :
     (trackAndRead st e c).1.subs = (trackSet (chainPath c)).foldl (fun m t => subscribe m e t) st.subs := by
   obtain ⟨a1, _, _, _, _, _, a7, _⟩ := walk_plainChain st c hpl
-  simp only [trackAndRead, a1, a7]
+  simp only [trackAndRead, walkH_plain st c hpl, a1, a7]
 
 /-- a reader that goes through `map` / `invert` on the `Option` field addressed by the first `n` accessors of
 its chain is, after every run (the option `Some` or `None`), subscribed to all of `trackSet` of that field:
@@ -1592,6 +1611,62 @@ theorem C16_map_reader_subscribes (st : St) (e : Nat) (x : Eff) (n : Nat)
     · rw [trackAndRead_subs _ e x.chain hpl, contains_foldl_subscribe, hin]
       rfl
   · exact hin
+
+/-! ### one trigger per path
+
+In the code the triggers of a path live in `TriggerMap` (`FxHashMap<StorePath, StoreFieldTrigger>`) behind
+`ArcStore::get_trigger`, whose `get_or_insert` runs under the exclusive lock: a path gets its pair of triggers
+once and everybody is handed clones of that pair.  In the model a trigger **is** its path and kind (`Trig`),
+`get_trigger` is the identity, so "at most one trigger per path" holds by construction; what corresponds to the
+table is the subscriber map `St.subs`, and its three constructors keep one entry per trigger: -/
+
+theorem subsSet_keys (m : List (Trig × List Nat)) (t : Trig) (l : List Nat) :
+    (subsSet m t l).map (·.1) = if t ∈ m.map (·.1) then m.map (·.1) else m.map (·.1) ++ [t] := by
+  induction m with
+  | nil => simp [subsSet]
+  | cons a rest ih =>
+    obtain ⟨u, e⟩ := a
+    simp only [subsSet]
+    by_cases hu : u = t
+    · subst hu; simp
+    · have hu' : ¬ t = u := fun h => hu h.symm
+      simp only [hu, if_false, List.map_cons, ih, List.mem_cons, hu', false_or]
+      by_cases hm : t ∈ rest.map (·.1)
+      · simp [hm]
+      · simp [hm]
+
+/-- the model's trigger table never holds two entries for one trigger (path, kind): `subsSet`, `subscribe`
+and `unsubscribeAll` — the only functions that build `St.subs` — preserve it, and `St.init` starts empty -/
+theorem C16_trigger_map_unique (m : List (Trig × List Nat)) (h : (m.map (·.1)).Nodup) :
+    (∀ t l, ((subsSet m t l).map (·.1)).Nodup) ∧
+    (∀ e t, ((subscribe m e t).map (·.1)).Nodup) ∧
+    (∀ e, ((unsubscribeAll m e).map (·.1)).Nodup) ∧
+    (∀ t l, subsOf (subsSet m t l) t = l) := by
+  have hs : ∀ t l, ((subsSet m t l).map (·.1)).Nodup := by
+    intro t l
+    rw [subsSet_keys]
+    by_cases hm : t ∈ m.map (·.1)
+    · simpa [hm] using h
+    · simp only [hm, if_false]
+      rw [List.nodup_append]
+      refine ⟨h, by simp, ?_⟩
+      intro a ha b hb
+      simp only [List.mem_cons, List.not_mem_nil, or_false] at hb
+      subst hb
+      intro hab; subst hab; exact hm ha
+  refine ⟨hs, ?_, ?_, ?_⟩
+  · intro e t
+    unfold subscribe
+    simp only
+    by_cases hc : (subsOf m t).contains e = true
+    · simp only [hc, if_true]; exact h
+    · simp only [hc]; exact hs t _
+  · intro e
+    have : (unsubscribeAll m e).map (·.1) = m.map (·.1) := by
+      simp [unsubscribeAll, Function.comp_def]
+    rw [this]; exact h
+  · intro t l
+    rw [subsOf_subsSet]; simp
 
 /-! ## 7. the state machine on concrete histories: witnesses of the other defects -/
 
@@ -1739,7 +1814,42 @@ theorem C16_erasure_transparent_reader (st : St) (c : Chain) (kind : RKind) (imm
     (hpl : ∀ a ∈ c.take k, a.isPlain = true) :
     stepOp st (.reader c kind imm (some k)) = stepOp st (.reader c kind imm none) := by
   have h := (walk_plainChain { st with log := [] } (c.take k) hpl).1
-  simp only [stepOp, h]
+  simp only [stepOp, walkH_plain _ (c.take k) hpl, h]
+
+/-- **a long-lived handle is transparent as long as the path of the accessor it was made from has not
+changed**: walking `h.rest` is walking `chain ++ rest`.  The path of a chain of struct fields, indexed
+elements and keyed fields never changes (`walk_plainChain`), and the segment of a keyed item does not change
+while its key stays in the collection, whatever is pushed, removed or reordered around it
+(`C16_keys_stable`, first clause) — which is the property's "keeps following that item". -/
+theorem C16_handle_transparent (st : St) (id : Nat) (hc rest : Chain) (fz : Path)
+    (hh : st.handles[id]? = some (hc, fz)) (hp : (walk st hc).2.tpath = fz) :
+    walkH st (.h id :: rest) = walk st (hc ++ rest) := by
+  have heta : ({ (walk st hc).2 with tpath := fz } : Walk) = (walk st hc).2 := by
+    cases hw : (walk st hc).2
+    rw [hw] at hp
+    simp only at hp
+    subst hp
+    rfl
+  simp only [walkH, hh]
+  by_cases hr : rest.isEmpty = true
+  · have : rest = [] := List.isEmpty_iff.1 hr
+    subst this
+    simp
+  · simp only [hr, heta]
+    unfold walk
+    rw [List.foldl_append]
+    rfl
+
+theorem C16_handle_transparent_plain (st : St) (id : Nat) (hc rest : Chain)
+    (hpl : ∀ a ∈ hc, a.isPlain = true) (hh : st.handles[id]? = some (hc, chainPath hc)) :
+    walkH st (.h id :: rest) = walk st (hc ++ rest) :=
+  C16_handle_transparent st id hc rest _ hh (walk_plainChain st hc hpl).2.1
+
+/-- creating a handle of a chain of plain accessors records exactly that path and changes nothing else -/
+theorem C16_hnew_plain (st : St) (hc : Chain) (hpl : ∀ a ∈ hc, a.isPlain = true) :
+    (stepOp st (.hnew hc)).1 = { st with log := [], handles := st.handles ++ [(hc, chainPath hc)] } := by
+  obtain ⟨a1, a2, _⟩ := walk_plainChain { st with log := [] } hc hpl
+  simp only [stepOp, walkH_plain _ hc hpl, a1, a2]
 
 /-- F-C16-8 (repaired by fix-c16-5): a write of the whole store through a `Field<Root>` / `ArcField<Root>`
 handle used to notify `children[]` only, which no reader of a field below the root tracks; now it wakes the
